@@ -1,3 +1,4 @@
+import DaskModel.Model.TextBlocks
 /-
 K10/K4 (part): `dask/dataframe/dask_expr/_repartition.py`, transliterated.
 
@@ -6,50 +7,36 @@ Python                                           Lean
 partitions of a frame                            `List (List α)` (rows in order); `den = flatten`
 `_clean_new_division_boundaries`                 `cleanBoundaries`
 `RepartitionToFewer._layer`                      `toFewerLayer` (lists of input partition numbers) + `evalLayer`
-`int(i * (old / new))` (IEEE double)             `F64.*` exact model of the two roundings, `toFewerRaw`
+`int(i * (old / new))` (IEEE double)             `F64.*` exact fixed-point model (unit 2^-1074) of the two roundings, `toFewerRaw`
 `RepartitionToMore._nsplits`, `_layer`           `nsplits`, `toMore`
 `split_evenly` (`np.linspace(0,len,k+1).astype(int)`)  `splitPositions` (same double model), `cut`
 `Repartition._lower` (decision only)             `lowerKind`
 `RepartitionDivisions._layer`                    `divisionsLayer` (two walks), `Slice`, `evalDivisions`
 `methods.boundary_slice` on one partition        `boundarySlice` (a filter on the index key)
-Import-free.
+No Mathlib (imports only Model/TextBlocks for `round53`).
 -/
 namespace Dask.Repart
 
 /-! ### exact IEEE-754 double arithmetic for the two float expressions in this file
-A positive finite double is `m * 2^e` with `2^52 ≤ m < 2^53`; only values far from the subnormal /
-overflow range occur (partition counts), so the exponent is unbounded here. -/
+A non-negative double is an integer multiple of `2^-1074` (the subnormal spacing), so it is represented by the natural
+number `v * 2^1074`. Rounding a rational to the nearest double (ties to even) is then `TextBlocks.round53`: to an
+integer below `2^53` units (the subnormal / lowest normal range), to 53 significant bits above. Overflow is not
+modelled (partition counts are far below `2^1024`). The lemmas about `round53` (monotone, exact on representable
+values, error at most one unit in the last place) live in `Lemmas/Round53.lean` (group bag) and `Lemmas/RepartFloat.lean`. -/
 namespace F64
+open Dask.TextBlocks (round53)
 
-/-- number of binary digits of `n` (`0` for `0`) -/
-def bitLen (n : Nat) : Nat := if n = 0 then 0 else Nat.log2 n + 1
+/-- the scale -/
+def U : Nat := 2 ^ 1074
 
-/-- round the positive rational `num/den` (`den > 0`) to the nearest double, ties to even.
-    Result `(m, e)` meaning `m * 2^e`; `(0, 0)` for zero. -/
-def roundRat (num den : Nat) : Nat × Int :=
-  if num = 0 ∨ den = 0 then (0, 0) else
-  -- choose e with 2^52 ≤ num / den / 2^e < 2^53 (first guess from bit lengths, then adjust)
-  let e0 : Int := (bitLen num : Int) - (bitLen den : Int) - 53
-  let scaled (e : Int) : Nat × Nat :=   -- num/den/2^e as a fraction
-    if e ≥ 0 then (num, den * 2 ^ e.toNat) else (num * 2 ^ (-e).toNat, den)
-  let q0 := (scaled e0).1 / (scaled e0).2
-  let e : Int := if q0 ≥ 2 ^ 53 then e0 + 1 else if q0 < 2 ^ 52 then e0 - 1 else e0
-  let (n, d) := scaled e
-  let q := n / d
-  let r := n % d
-  let m := if 2 * r > d then q + 1 else if 2 * r < d then q else (if q % 2 = 0 then q else q + 1)
-  if m = 2 ^ 53 then (2 ^ 52, e + 1) else (m, e)
-
-/-- `float(a) / float(b)` for non-negative integers below 2^53 -/
-def div (a b : Nat) : Nat × Int := roundRat a b
+/-- `float(a) / float(b)` for non-negative integers below 2^53, `b > 0` -/
+def div (a b : Nat) : Nat := round53 (a * U) b
 
 /-- `i * x` for an integer `i < 2^53` and a double `x` -/
-def mulNat (i : Nat) (x : Nat × Int) : Nat × Int :=
-  if x.2 ≥ 0 then roundRat (i * x.1 * 2 ^ x.2.toNat) 1 else roundRat (i * x.1) (2 ^ (-x.2).toNat)
+def mulNat (i : Nat) (x : Nat) : Nat := round53 (i * x) 1
 
 /-- `int(x)` for a non-negative double -/
-def trunc (x : Nat × Int) : Nat :=
-  if x.2 ≥ 0 then x.1 * 2 ^ x.2.toNat else x.1 / 2 ^ (-x.2).toNat
+def trunc (x : Nat) : Nat := x / U
 
 end F64
 
